@@ -532,6 +532,7 @@ fn replay(args: &Args, path: &str) {
                 "collect" => Op::Collect,
                 "ramp" => Op::Ramp { owner: o["by_owner"].as_bool().unwrap(), fa: u6(&o["future_a"]), fb: u6(&o["future_block"]) },
                 "donate" => Op::Donate { i: u6(&o["index"]) as usize, x: us(&o["amount"]) },
+                "set_fees" => Op::SetFees { owner: o["by_owner"].as_bool().unwrap_or(true), f: (us(&o["fees_protocol_swap_burn"][0]), us(&o["fees_protocol_swap_burn"][1]), us(&o["fees_protocol_swap_burn"][2])) },
                 _ => Op::Advance { dh: u6(&o["blocks"]) },
             }).collect();
             let f = &fi["fees_protocol_swap_burn"];
